@@ -138,13 +138,15 @@ fn parse_case(line: &str) -> Option<Case> {
         }
         cluster = (b[3] - b'0') as usize;
         idempotent = b[4] == b'i';
-    } else if !["pg", "pgk", "sess", "squery", "sessdg", "ctl"].contains(&w[0]) {
+    } else if !["pg", "pgk", "sessk", "sess", "squery", "sessdg", "ctl"].contains(&w[0]) {
         return None;
     }
     let session = !(w[0] == "pg" || w[0] == "pgk");
     let downgrading = w[0] == "sessdg";
     let unprepared = w[0] == "squery";
-    let pk_error = w[0] == "pgk";
+    // `sessk`: the SESSION constructor's PartitionKeyError (pager.rs 949-958): the values serialize, but the
+    // composite partition key is too long to compute a token for
+    let pk_error = w[0] == "pgk" || w[0] == "sessk";
     let ctl = w[0] == "ctl";
     let (skip, ext, always_full) = match w[1] {
         "0" => (false, false, false),
@@ -416,6 +418,12 @@ fn handler_inner(script: Arc<Mutex<Script>>, min_conn: Arc<AtomicUsize>, ext: bo
                 }
             }
             vec![Action::Respond(RESP_RESULT, body_prepared_raw(&id, &node_cols(local), if local { "local" } else { "peers" }, ext))]
+        }
+        Parsed::Prepare { text } if text.contains("/*pk2*/") => {
+            // two bind markers forming a composite partition key
+            let rm = ResultMeta { col_count: 1, cols: Some(cols(0)), ..Default::default() };
+            let bind = [Col { name: "p".into(), type_id: 0x0003 }, Col { name: "q".into(), type_id: 0x0003 }];
+            vec![Action::Respond(RESP_RESULT, body_prepared(&md5ish(text), None, &bind, &[0, 1], &rm))]
         }
         Parsed::Prepare { text } if text.contains("/*pk*/") => {
             // one bind marker, which is the partition key
@@ -854,7 +862,7 @@ async fn run_case(case: &Case, ctx: &mut Ctx) -> String {
         c.set(c.get() + 1);
         c.get()
     });
-    let text = format!("{} WHERE case_no = {}{}", QUERY, case_no, if case.pk_error { " AND p = ? /*pk*/" } else { "" });
+    let text = format!("{} WHERE case_no = {}{}", QUERY, case_no, if case.pk_error && case.session { " AND p = ? AND q = ? /*pk2*/" } else if case.pk_error { " AND p = ? /*pk*/" } else { "" });
     if !case.ctl {
         env.script.lock().unwrap().statement_id = md5ish(&text);
     }
@@ -890,6 +898,7 @@ async fn run_case(case: &Case, ctx: &mut Ctx) -> String {
     unprepared_statement.set_request_timeout(if has_timeout_fault { Some(REQUEST_TIMEOUT) } else { None });
     let cancel_ctor = case.pages[0].faults.contains(&'X');
     let unprepared = case.unprepared;
+    let pk_error = case.pk_error;
 
     let script = Arc::clone(&env.script);
     let consumer = case.consumer;
@@ -921,6 +930,10 @@ async fn run_case(case: &Case, ctx: &mut Ctx) -> String {
             match conn {
                 Client::Conn(c) => c.execute_iter_raw(prepared, SerializedValues::new()).await.map_err(|e| error_label(&e)),
                 Client::Sess(s) if unprepared => s.query_iter(unprepared_statement, ()).await.map_err(|e| pager_error_label(&e)),
+                Client::Sess(s) if pk_error => {
+                    // 70000 bytes in one component of a composite key: serializable, but no token can be computed
+                    s.execute_iter(prepared, (vec![7u8; 70_000], vec![1u8])).await.map_err(|e| pager_error_label(&e))
+                }
                 Client::Sess(s) => s.execute_iter(prepared, ()).await.map_err(|e| pager_error_label(&e)),
             }
         };
@@ -1557,6 +1570,7 @@ fn gen_constructor(rng: &mut Rng, thorough: bool, emit: &mut dyn FnMut(String)) 
             let sts = states(rng, n, false);
             for skip in [false, true] {
                 emit(with_kind(fmt_case(skip, Consumer::Eager, &build(sizes, &sts, &[])), "pgk"));
+                emit(with_kind(fmt_case(skip, Consumer::Eager, &build(sizes, &sts, &[])), "sessk"));
             }
             for (kind, faults) in [
                 ("pg", vec!["X", "dX", "uX"]),
